@@ -166,7 +166,7 @@ func resolveRoles(w *World) *roles {
 		switch {
 		case recv == "scope" && callsInvoke:
 			ro.createInstance = fi
-		case recv == "scope" && hasSwitch && storesCache:
+		case recv == "scope" && hasSwitch && (storesCache || fi.Obj.Name() == "setInstance") && !callsInvoke:
 			ro.setInstance = fi
 		case recv == "provider" && storesSingle:
 			ro.setSingleton = fi
